@@ -308,7 +308,7 @@ def check(ctx):
     # compares the path with args.motion_filter[0] and the rotation angle
     # with args.motion_filter[1] taken as degrees, whatever the signatures
     import math
-    from ..lib import motion_filter_probe
+    from ..lib import motion_filter_probe, PROBE_DIST, PROBE_ANGLE_DEG
     mf = A("motion_filter")
     probe = motion_filter_probe(
         prog, f, lambda e: _callee(e) == TP + "motion_filter",
@@ -319,21 +319,21 @@ def check(ctx):
                             "inside the filter not found / not evaluable "
                             "(unknown idiom)")
             continue
-        okd = abs(d_ - 1.0) < 1e-12
-        oka = abs(a_ - math.radians(1.0)) < 1e-12
+        okd = abs(d_ - PROBE_DIST) < 1e-12
+        oka = abs(a_ - math.radians(PROBE_ANGLE_DEG)) < 1e-12
         ctx.ob("C15.3", e, okd,
                "motion_filter: distance_threshold <- args.motion_filter[0] "
                "(meters)" if okd else
-               f"motion_filter: for `--motion_filter 1 1` the path is "
+               f"motion_filter: for `--motion_filter 2 3` the path is "
                f"compared with {d_:g} m", key="C15.3:motion_filter:"
                "distance_threshold")
         ctx.ob("C15.3", e, oka,
                "motion_filter: angle_threshold <- args.motion_filter[1], "
                "converted from degrees exactly once" if oka else
-               f"motion_filter: for `--motion_filter 1 1` the filter behind "
+               f"motion_filter: for `--motion_filter 2 3` the filter behind "
                f"{fmt(e.data.get('recv'))[:50]}.motion_filter compares the "
                f"rotation angle with {a_:.6g} rad — expected "
-               f"{math.radians(1.0):.6g} rad (1 degree)",
+               f"{math.radians(PROBE_ANGLE_DEG):.6g} rad (3 degrees)",
                key="C15.3:motion_filter:degrees")
     for e in step_events["t_offset"]:
         ok = e.data["value"] is A("t_offset") and e.data["op"] == "Add"
